@@ -18,7 +18,7 @@ def litert_abort_finding(rep):
 
 def run(rep):
     litert_abort_finding(rep)
-    gc.small_carriers(rep, 'C01'); gc.insert_obligations(rep, 'C01'); gc.performer_obligations(rep, 'C01'); gc.names_obligations(rep, 'C01'); gc.tensorinfo_obligations(rep, 'C01'); gc.vertical_obligations(rep, 'C01')
+    gc.small_carriers(rep, 'C01'); gc.insert_obligations(rep, 'C01'); gc.performer_obligations(rep, 'C01'); gc.names_obligations(rep, 'C01'); gc.tensorinfo_obligations(rep, 'C01'); gc.vertical_obligations(rep, 'C01'); gc.produce_obligations(rep, 'C01')
     gc.bounded_insert(rep); gc.e2e_standin(rep, 'C01', sampled3=(300 if rep.tier == 'thorough' else 0))
     gc.canaries(rep); gc.performer_canaries(rep)
     rep.assume('LiteRT allocate_tensors/invoke succeed on a structurally well-formed, dtype-consistent model (external C++ runtime; exercised only by the bounded end-to-end stand-in)')
